@@ -612,6 +612,9 @@ func runC05(c *hc.Ctx) error {
 	}
 	for i := 0; i < n; i++ {
 		g, poly, kind := rawCase(c, grids, 8)
+		if i%4 == 3 { // valid polygons, a share of them with decimal-like ordinates next to pixel borders
+			g, poly, kind = validCase(c, grids, 10)
+		}
 		ids := randIDs(c.Rng, g)
 		c.Count("kind " + kind)
 		results := map[[2]bool]*Result{}
@@ -886,6 +889,26 @@ func reverseOnly(a, b map[int][][][]Pt) bool {
 // ---------------------------------------------------------------------------------------------------
 // C08 — a tile matrix's result does not depend on which others are requested
 // ---------------------------------------------------------------------------------------------------
+// shellFatesDiffer: requested alone (keep off), some tile matrix returns geometry while a deeper one returns nothing.
+func shellFatesDiffer(g *Grid, poly [][]Pt) bool {
+	present := make([]bool, g.DeepestID+1)
+	for id := 0; id <= g.DeepestID; id++ {
+		r := runSnap(g, poly, []int{id}, snap.Config{}, watchdog)
+		if r.Panic != "" {
+			return false
+		}
+		present[id] = len(r.Raw[id]) > 0
+	}
+	for id := range present {
+		for id2 := id + 1; id2 < len(present); id2++ {
+			if present[id] && !present[id2] {
+				return true
+			}
+		}
+	}
+	return false
+}
+
 func runC08(c *hc.Ctx) error {
 	c.CorrInit("Texel.Corr.C08", "theories/Corr/C08.v", 100)
 	c.Sum.Rule = "polygons valid or not on round grids (synthetic dyadic grids with deepest id 1-3, round grids with an odd deepest resolution of 9765625 units; NetherlandsRDNewQuad ids 10-14 with coordinates on its 1e-10 lattice), every non-empty id subset of a random 3-element id set; distinct by (grid, polygon, flags); non-trivial = >= 2 ids and the polygon collapses at the coarsest"
@@ -902,20 +925,22 @@ func runC08(c *hc.Ctx) error {
 	}
 	for i := 0; i < n; i++ {
 		g, poly, kind := rawCase(c, grids, 8)
-		if i%3 == 1 { // shapes whose shell collapses at a deep level but not at a coarser one
-			for try := 0; try < 50; try++ {
-				g = pickGrid(c, grids)
-				w := randWindow(c.Rng, g, 12)
+		if i%3 == 1 { // shapes whose shell collapses at a deep level but not at a coarser one (rejection sampled on that fate)
+			for try := 0; try < 150; try++ {
+				gg := pickGrid(c, grids)
+				w := randWindow(c.Rng, gg, 12)
 				ring := genArrowhead(c.Rng, w)
-				if g.inGrid([][]Pt{ring}) && ringSimple(ring) {
-					poly, kind = [][]Pt{ring}, "arrowhead"
+				if gg.inGrid([][]Pt{ring}) && ringSimple(ring) {
+					g, poly, kind = gg, [][]Pt{ring}, "arrowhead"
 					if c.Rng.Intn(3) == 0 { // with a hole-like second ring, so that later rings see the level map
 						poly = append(poly, genStar(c.Rng, w, 3+c.Rng.Intn(3)))
 						if !g.inGrid(poly) {
 							poly = poly[:1]
 						}
 					}
-					break
+					if shellFatesDiffer(g, poly) {
+						break
+					}
 				}
 			}
 		}
